@@ -31,7 +31,20 @@ pub fn zendian(e: Endian) -> zbus::zvariant::Endian {
 
 /// Build `m` through the library's Builder. Fd values refer to `pool`.
 pub fn lib_build(m: &Msg, pool: &[OwnedFd]) -> zbus::Result<Message> {
+    lib_build_via(m, pool, false)
+}
+
+/// `via_header`: first build a donor message with the same header fields but ANOTHER body (a string and two fds), then
+/// start from `Builder::from(donor.header())`: signature and fd count of the result must be the new body's.
+pub fn lib_build_via(m: &Msg, pool: &[OwnedFd], via_header: bool) -> zbus::Result<Message> {
     let fds: Vec<_> = pool.iter().map(|f| f.as_fd()).collect();
+    if via_header && pool.len() >= 2 {
+        let mut donor = m.clone();
+        donor.body = vec![Val::S("donor".into()), Val::H(0), Val::H(1)];
+        let d = lib_build_via(&donor, pool, false)?;
+        let b = zbus::message::Builder::from(d.header());
+        return finish(b, m, &fds);
+    }
     let mut b = match m.mtype {
         METHOD_CALL => Message::method_call(m.path().unwrap(), m.member().unwrap())?,
         SIGNAL => Message::signal(m.path().unwrap(), m.interface().unwrap(), m.member().unwrap())?,
@@ -66,6 +79,11 @@ pub fn lib_build(m: &Msg, pool: &[OwnedFd]) -> zbus::Result<Message> {
             b = b.with_flags(flag)?;
         }
     }
+    finish(b, m, &fds)
+}
+
+fn finish(b: zbus::message::Builder<'_>, m: &Msg, fds: &[std::os::fd::BorrowedFd<'_>]) -> zbus::Result<Message> {
+    let fds = fds.to_vec();
     match m.body.len() {
         0 => b.build(&()),
         1 if !matches!(m.body[0], Val::St(_)) => {
@@ -156,7 +174,12 @@ fn check(ctx: &mut Ctx, index: u64, m: &Msg, pool: &[OwnedFd], pool_ids: &[(u64,
     let loc = format!("type{}", m.mtype);
     let detail = |x: serde_json::Value| json!({"type": m.mtype, "flags": m.flags, "endian": m.endian.name(), "fields": format!("{:?}", m.fields),
         "body": m.body.iter().map(|b| b.show()).collect::<Vec<_>>(), "info": x});
-    let msg = match lib_build(m, pool) {
+    let via_header = index % 4 == 3;
+    if via_header {
+        ctx.count("class:rebuilt-from-a-header", 1);
+    }
+    let loc = if via_header { format!("{loc}:rebuilt-from-header") } else { loc };
+    let msg = match lib_build_via(m, pool, via_header) {
         Ok(x) => x,
         Err(e) => {
             ctx.finding(index, "build-error", "-", &loc, detail(json!({"error": e.to_string()})));
